@@ -635,6 +635,16 @@ impl<'a> Interp<'a> {
         }
     }
 
+    fn is_const_expr(&self, e: &Expr) -> bool {
+        match e {
+            Expr::Num(_) | Expr::Hex(_) => true,
+            Expr::Paren(a) | Expr::Un(_, a) => self.is_const_expr(a),
+            Expr::Bin(op, a, b) => !op.is_logic() && self.is_const_expr(a) && self.is_const_expr(b),
+            Expr::Lv(LV::Var(v)) => matches!(self.p.vars[*v].kind, VarKind::ConstVal(..)),
+            _ => false,
+        }
+    }
+
     fn num(&self, n: i64, hex: bool) -> Val {
         let narrow = (-128..=255).contains(&n);
         let unsigned = hex && n > 0x7fff;
@@ -904,6 +914,14 @@ impl<'a> Interp<'a> {
                 _ => {
                     let l = self.eval(a)?;
                     let r = self.eval(b)?;
+                    // an operation on two compile-time constants is folded by any compiler in
+                    // int arithmetic: the 8-bit-context reading does not apply to it
+                    if self.mode == EvalMode::Ctx && self.is_const_expr(a) && self.is_const_expr(b) {
+                        self.mode = EvalMode::Iso;
+                        let v = self.binop(*op, l, r);
+                        self.mode = EvalMode::Ctx;
+                        return v;
+                    }
                     self.binop(*op, l, r)
                 }
             },
